@@ -347,7 +347,8 @@ def _verify_one(h, fam, proj, target_dir, log_dir, timeout_s, replay_exe, sectio
                 lf.write("\n[kani_run] native search %s -> %s\n" % (name, sp.stdout.strip()))
             return res
     # counterexample extraction (concrete playback) + native replay
-    text2, reason2 = _run_cmd(_kani_cmd(name, target_dir, playback=True), proj, log, timeout_s, append=True)
+    text2, reason2 = _run_cmd(_kani_cmd(name, target_dir, playback=True), proj, log,
+                              min(timeout_s, max(120, int(3 * (p["time"] or 60)))), append=True)
     res["time_s"] = round(time.time() - t0, 1)
     if reason2:
         res["reason"] = "check failed, but counterexample extraction hit " + reason2
